@@ -89,10 +89,74 @@ Proof. vm_compute. eexists. split; reflexivity. Qed.
 
 (* the hypotheses of C18_full are met by a diamond; both loops then finish every node *)
 Example C18_diamond_runs :
-  exists g g' s, run_build_from_empty [AddNodes [0]; AddNodes [1]; AddNodes [2]; AddNodes [3];
-                                       AddEdges [(0, 1)]; AddEdges [(0, 2)]; AddEdges [(1, 3)]; AddEdges [(2, 3)]] = Some g /\
-    acyclicb (g_nodes g) (g_edges g) = true /\
-    step g GetSorted = Ok g' /\ g_sorted g' = Some s /\ s = [0; 1; 2; 3] /\
-    run_sync 9 (g_preds g') s (fun _ => false) = Finished [0; 1; 2; 3] [(0, Succ); (1, Succ); (2, Succ); (3, Succ)] /\
-    run_async 10 (g_preds g') s 2 (fun i => (i, false)) = Finished [0; 2; 1; 3] [(0, Succ); (1, Succ); (2, Succ); (3, Succ)].
-Proof. vm_compute. do 3 eexists. repeat split. Qed.
+  match run_build_from_empty [AddNodes [0]; AddNodes [1]; AddNodes [2]; AddNodes [3];
+                              AddEdges [(0, 1)]; AddEdges [(0, 2)]; AddEdges [(1, 3)]; AddEdges [(2, 3)]] with
+  | Some g =>
+      acyclicb (g_nodes g) (g_edges g) = true /\
+      match step g GetSorted with
+      | Ok g' =>
+          g_sorted g' = Some [0; 1; 2; 3] /\
+          run_sync 9 (g_preds g') [0; 1; 2; 3] (fun _ => false)
+            = Finished [0; 1; 2; 3] [(0, Succ); (1, Succ); (2, Succ); (3, Succ)] /\
+          run_async 10 (g_preds g') [0; 1; 2; 3] 2 (fun i => (i, false))
+            = Finished [0; 2; 1; 3] [(0, Succ); (1, Succ); (2, Succ); (3, Succ)]
+      | Err _ => False
+      end
+  | None => False
+  end.
+Proof. vm_compute. repeat split. Qed.
+
+(* ==========================================================================================
+   (5) The same on the FULL scheduler model (Model/Sched.v, builder D2: several jobs per node,
+   failing jobs, max_concurrent, `futured`, jobs seen running, the stall detector), code after the
+   repairs F14/F16.  Names below are those of Model/Sched.v, not of Model/Graph.v. *)
+From Pydra Require Import Base.SchedBase Model.Sched Spec.Sched Proofs.SchedTermA Proofs.SchedTermS.
+
+(* expand_workflow_async: for every graph in topological order, every value type and job body,
+   EVERY set of failing jobs, max_concurrent >= 1 or unlimited, and EVERY oracle — the only
+   fairness built into the model is asyncio.wait(FIRST_COMPLETED)'s: when futures are pending, a
+   wake-up reports at least one of them completed (which ones, how many, in which order, and which
+   jobs are seen running is arbitrary) — |jobs| + 2 loop iterations suffice, and the loop ends by
+   itself (Finished, the failures being collected in `errors`) or with the stall detector's
+   RuntimeError (Stalled).  The bound does not depend on |nodes| or on the stall limit: the up to
+   11 polls of the stall detector happen inside one iteration. *)
+Theorem C18_async_loop_terminates_full :
+  forall (V : Type) (body : nat -> nat -> list (list (option V)) -> V) (fails : SchedBase.job -> bool)
+         (vr : variant) (g : SchedBase.graph) (kmax : option nat) (orc : list oracle_step) (fuel : nat),
+    fix14 vr = true -> wf_graph g -> (forall k, kmax = Some k -> 1 <= k) ->
+    List.length (all_jobs g) + 2 <= fuel ->
+    o_status (Sched.run_async V body fails vr g kmax orc fuel) = Sched.Finished \/
+    o_status (Sched.run_async V body fails vr g kmax orc fuel) = Sched.Stalled.
+Proof. intros V body fails vr g kmax orc fuel F W K. exact (async_terminates_full V body fails vr F g W kmax K orc fuel). Qed.
+Print Assumptions C18_async_loop_terminates_full.
+
+(* expand_workflow (debug worker): |jobs| + 1 iterations suffice; the loop ends by itself or with
+   the first failing job's exception. *)
+Theorem C18_sync_loop_terminates_full :
+  forall (V : Type) (body : nat -> nat -> list (list (option V)) -> V) (fails : SchedBase.job -> bool)
+         (vr : variant) (g : SchedBase.graph) (kmax : option nat) (fuel : nat),
+    fix14 vr = true -> wf_graph g -> (forall nd, In nd g -> 1 <= njobs nd) -> (forall k, kmax = Some k -> 1 <= k) ->
+    List.length (all_jobs g) + 1 <= fuel ->
+    o_status (Sched.run_sync V body fails vr g kmax fuel) = Sched.Finished \/
+    o_status (Sched.run_sync V body fails vr g kmax fuel) = Sched.Raised.
+Proof. intros V body fails vr g kmax fuel F W N K. exact (sync_terminates_full V body fails vr F g W kmax N K fuel). Qed.
+Print Assumptions C18_sync_loop_terminates_full.
+
+(* the hypotheses are met with a failing job: node 0 is split in two and its second job fails;
+   node 1 (and node 3 behind it) become unrunnable, the independent node 2 still runs *)
+Example C18_full_model_failing_job :
+  let g := [mkNode 0 [] 2; mkNode 1 [0] 1; mkNode 2 [] 1; mkNode 3 [1; 2] 1] in
+  let r := Sched.run_async unit (fun _ _ _ => tt) (fails_of [(0, 1)]) repaired g (Some 2) [] (List.length (all_jobs g) + 2) in
+  let s := Sched.run_sync unit (fun _ _ _ => tt) (fails_of [(0, 1)]) repaired g (Some 2) (List.length (all_jobs g) + 1) in
+  fix14 repaired = true /\ wf_graph g /\
+  o_status r = Sched.Finished /\ error_names r = [(0, 1)] /\ launches r = [(0, 0); (0, 1); (2, 0)] /\
+  o_status s = Sched.Raised /\ error_names s = [(0, 1)].
+Proof. vm_compute. repeat split. Qed.
+
+(* ... and the Stalled ending is real: behind a failing job a chain of 13 nodes is marked
+   unrunnable one node per poll (the `not_started` break), which the 11 polls do not finish *)
+Example C18_full_model_stall_detector :
+  let g := mkNode 0 [] 1 :: map (fun i => mkNode (S i) [i] 1) (seq 0 13) in
+  wf_graph g /\
+  o_status (Sched.run_async unit (fun _ _ _ => tt) (fails_of [(0, 0)]) repaired g None [] (List.length (all_jobs g) + 2)) = Sched.Stalled.
+Proof. vm_compute. repeat split. Qed.
